@@ -46,18 +46,18 @@ def inputsAt (inp : Nat → Value) (p : Nat) : List Value → Prop
 /-- `clock_bound_shm::common::CLOCK_MONOTONIC` as handed to `clock_gettime_safe` -/
 def clockId : Value := .ext "clockid" [.str "CLOCK_MONOTONIC"]
 
-/-- the first half of one trip through the poller's loop: the clock read failed (`Err(e)`); or it returned `asOf`
+/-- the first half of one trip through the poller's loop: the clock read failed (`Err(e)`); or it returned the `libc::timespec` `asOf`
     and chrony replied with the tracking data `t` (the PHC file is not read: see `Poll.phcMiss`); or it returned
     `asOf`, chrony did not reply and `is_within_grace_period()` returned `grace` -/
 inductive Poll
   | clockErr (e : Value)
-  | data (asOf : Value) (t : Tracking)
-  | noReply (asOf : Value) (grace : Bool)
+  | data (asOf : TimeSpec) (t : Tracking)
+  | noReply (asOf : TimeSpec) (grace : Bool)
 
 /-- the message the poller builds (an opaque payload for this group) -/
 def Poll.msg : Poll → Value
   | .clockErr _ => .unit
-  | .data a t => .enumv "Message::ClockErrorBoundData" [.tuple [trackingValue t, .int .infer 0, a]]
+  | .data a t => .enumv "Message::ClockErrorBoundData" [.tuple [trackingValue t, .int .infer 0, ctimespecValue a]]
   | .noReply _ g =>
     if g = true then .enumv "Message::ChronyNotRespondingGracePeriod" [] else .enumv "Message::ChronyNotResponding" []
 
@@ -74,18 +74,18 @@ def Poll.phcMiss (phc : Option (Nat × Value)) : Poll → Prop
 /-- the values the operations of this half return; `ok`: the outcome of the send to the writer's channel -/
 def Poll.inputs (ok : Bool) : Poll → List Value
   | .clockErr e => [.enumv "Err" [e]]
-  | .data a t => [.enumv "Ok" [a], .enumv "Some" [trackingValue t], sendResult ok (Poll.msg (.data a t))]
-  | .noReply a g => [.enumv "Ok" [a], .enumv "None" [], .bool g, sendResult ok (Poll.msg (.noReply a g))]
+  | .data a t => [.enumv "Ok" [ctimespecValue a], .enumv "Some" [trackingValue t], sendResult ok (Poll.msg (.data a t))]
+  | .noReply a g => [.enumv "Ok" [ctimespecValue a], .enumv "None" [], .bool g, sendResult ok (Poll.msg (.noReply a g))]
 
 /-- the events of this half -/
 def Poll.events (ok : Bool) : Poll → List Value
   | .clockErr e => [evOp "clock_gettime_safe" [clockId] (.enumv "Err" [e])]
   | .data a t =>
-    [evOp "clock_gettime_safe" [clockId] (.enumv "Ok" [a]),
+    [evOp "clock_gettime_safe" [clockId] (.enumv "Ok" [ctimespecValue a]),
      evOp "get_tracking" [] (.enumv "Some" [trackingValue t]),
      evSend (chanValue .writer) (Poll.msg (.data a t)) (sendResult ok (Poll.msg (.data a t)))]
   | .noReply a g =>
-    [evOp "clock_gettime_safe" [clockId] (.enumv "Ok" [a]),
+    [evOp "clock_gettime_safe" [clockId] (.enumv "Ok" [ctimespecValue a]),
      evOp "get_tracking" [] (.enumv "None" []),
      evOp "is_within_grace_period" [] (.bool g),
      evSend (chanValue .writer) (Poll.msg (.noReply a g)) (sendResult ok (Poll.msg (.noReply a g)))]
